@@ -260,12 +260,10 @@ class OutgoingRIB(Cache):
         # remove previous announcement if cancelled/replaced before being sent
         prev_route = new_nlri.get(route_index, None)
         if prev_route:
-            prev_route_index = prev_route.index()
-            prev_route_attr_index = prev_route.attributes.index()
-            attr_af_nlri.setdefault(prev_route_attr_index, {}).setdefault(route_family, RIBdict({})).pop(
-                prev_route_index,
-                None,
-            )
+            # older copies may still be queued under other attribute groups: none may survive
+            # the withdraw, or it would be announced again right after it
+            for per_family in attr_af_nlri.values():
+                per_family.get(route_family, RIBdict({})).pop(route_index, None)
             # Also remove from _new_nlri since we're withdrawing it
             new_nlri.pop(route_index, None)
 
@@ -336,6 +334,16 @@ class OutgoingRIB(Cache):
         # Note: Cancel logic removed - announce does NOT cancel pending withdraw
         # This allows withdraw+announce sequences to both be sent
         # See plan/plan-announce-cancels-withdraw-optimization.md for future optimization
+
+        # The route may still be queued under other attributes.  A new attribute group is sent
+        # last, so the older copies can go first, but when the group for these attributes already
+        # exists it is sent before them and the peer would end up with an older copy while the
+        # Adj-RIB-Out holds this one: drop the older copies
+        queued = new_nlri.get(route_index, None)
+        if queued is not None and route_attr_index in attr_af_nlri and queued.attributes.index() != route_attr_index:
+            for attr_index, per_family in attr_af_nlri.items():
+                if attr_index != route_attr_index:
+                    per_family.get(route_family, {}).pop(route_index, None)
 
         # add the route to the list to be announced
         attr_af_nlri.setdefault(route_attr_index, {}).setdefault(route_family, RIBdict({}))[route_index] = route
